@@ -475,6 +475,9 @@ def b_reversed(I, fv, args, kwargs, node):
     items = _list_items(I, args[0])
     if items is not None:
         return IterV(tuple(reversed(items)))
+    v = I.force(args[0])
+    if isinstance(v, Ref) and isinstance(I.deref(v), AList):
+        return IterV(tuple(reversed(I.iterate(v, node))))
     return Unk(f"reversed({I.tag(args[0])})")
 
 
